@@ -1076,6 +1076,9 @@ pub fn run(ctx: &mut Ctx, c: &Corpus) -> Vec<Replay> {
         if collision {
             ctx.stats.inc("dim_name_collision");
         }
+        if jr.pos > 0 && plan.jobs.iter().any(|j| j.name.starts_with("failing-twin")) {
+            ctx.stats.inc("dim_after_failing_twin");
+        }
         if plan.threads[jr.thread].offsets.get(jr.pos).copied().unwrap_or(0) > 0 && !jr.reused_server {
             ctx.stats.inc("dim_handle_layout");
             dims += 1;
